@@ -355,7 +355,9 @@ def main():
                                "documents_written": len(written), "commands_failed": len(raw) - len(written),
                                "runs_with_foreign_file_in_place": 2 * len(sentinel),
                                "outcomes": outcome,
-                               "model_predicts_failure": len([i for i in ev["model_none"] if meta[i][2] == "raw"])},
+                               "model_predicts_failure": len([i for i in ev["model_none"] if meta[i][2] == "raw"]),
+                               "runs_satisfying_well_linked (C08_wf_partial)":
+                                   len([i for i in ev["well_linked"] if meta[i][2] == "raw"])},
     })
     res.assumptions += [
         "the kin-openapi and libopenapi validators are an oracle: the check observes their verdict through the "
